@@ -410,9 +410,9 @@ class Message(ParsingNode):
         line_length = get_max_line_length(mcnp_version)
         for i, line in enumerate(self.lines):
             if i == 0:
-                ret.append("MESSAGE: " + line[0 : line_length - 10])
+                ret.append("MESSAGE: " + line[0 : line_length - 9])
             else:
-                ret.append(line[0 : line_length - 1])
+                ret.append(line[0:line_length])
         ret.append("")
         return ret
 
@@ -453,7 +453,7 @@ class Title(ParsingNode):
     def format_for_mcnp_input(self, mcnp_version):
         line_length = 0
         line_length = get_max_line_length(mcnp_version)
-        return [self.title[0 : line_length - 1]]
+        return [self.title[0:line_length]]
 
 
 def parse_card_shortcuts(*args, **kwargs):  # pragma: no cover
